@@ -171,9 +171,51 @@ def ref_leaf(name, v):
         return (OK, cls(v)) if k == 'map' else _rej('kind')
     if name == 'empty_tuple':
         return (OK, ()) if k == 'seq' and len(v) == 0 else _rej('kind/len')
+    if name in ('lit_v1', 'lit_v2', 'lit_1', 'lit_2'):
+        lv = {'lit_v1': 'v1', 'lit_v2': 'v2', 'lit_1': 1, 'lit_2': 2}[name]
+        return _enum_like([(lv, lv)], v, None)
+    if name in grammar.TAGGED:
+        return ref_tagged(name, v)
     if name in grammar.DC_SPECS:
         return ref_dc(name, v)
     raise KeyError(name)
+
+
+def ref_tagged(name, v):
+    """Tagged unions (docs/using/tagged.md): the tag alone selects the variant; internal layout keeps the tag among the variant's
+    own keys (and strips it before the variant sees the rest), external is {tag: body}, adjacent is {'t': tag, 'c': body}."""
+    layout, variants = grammar.TAGGED[name]
+    if kind(v) != 'map':
+        return _rej('kind')
+    try:
+        if layout == 'internal':
+            if 'x' not in v:
+                return _rej('tag_missing')
+            tag = v['x']
+            body = {kk: x for kk, x in v.items() if not (isinstance(kk, str) and kk == 'x')}
+        elif layout == 'external':
+            if len(v) != 1:
+                return _rej('external_shape')
+            (tag, body), = v.items()
+        else:
+            if len(v) != 2 or 't' not in v or 'c' not in v:
+                return _rej('adjacent_shape')
+            tag, body = v['t'], v['c']
+    except TypeError:
+        return _rej('unhashable')
+    hit = None
+    other = False
+    for tg, leaf in variants.items():
+        try:
+            if type(tg) is type(tag) and tg == tag:
+                hit = leaf
+            elif tg == tag:
+                other = True
+        except Exception:  # noqa
+            pass
+    if hit is None:
+        return _unspec('tag_equal_other_type') if other else _rej('unknown_tag')
+    return ref_dc(hit, body)
 
 
 # ------------------------------------------------------------------ composites (A.2 - A.5)
@@ -437,7 +479,7 @@ LEAF_MEMBERS: t.Dict[str, t.List[t.Any]] = {
     'purepath': ['a/b'], 'pureposixpath': ['/a/b'], 'path': ['a/b'], 'pathlike': ['a/b'],
     'any': [1, 'a', [1, 'x'], {'a': [1]}, None],
     'enum_int': [1, 2], 'enum_str': ['x', 'y'], 'enum_mixed': [1, 's', None], 'enum_strmix': ['red', 'blue'], 'enum_intmix': [1, 2],
-    'lit_str': ['a', 'b'], 'lit_mixed': [1, 'a', None],
+    'lit_str': ['a', 'b'], 'lit_mixed': [1, 'a', None], 'lit_v1': ['v1'], 'lit_v2': ['v2'], 'lit_1': [1], 'lit_2': [2],
     'sub_str': ['abc'], 'sub_int': [5], 'sub_float': [2.5, 2],
     'sub_list': [[1, 'a']], 'sub_dict': [{'a': 1}],
     'bare_list': [[], [1, 'a']], 'bare_tuple': [[], [1, 'a'], (1,)], 'bare_dict': [{}, {'a': 1, 2: 'b'}],
@@ -675,7 +717,24 @@ def check_serial(ast, x, d, path='$') -> t.Optional[str]:
     if isinstance(ast, str):
         if ast in grammar.DC_SPECS:
             return _check_serial_dc(grammar.DC_SPECS[ast], x, d, path)
-        if ast in ('int', 'float', 'complex', 'str', 'bytes', 'bool', 'none', 'lit_str', 'lit_mixed'):
+        if ast in grammar.TAGGED:
+            layout, variants = grammar.TAGGED[ast]
+            hit = next(((tg, leaf) for tg, leaf in variants.items() if type(x) is grammar.dc_class(leaf)), None)
+            if hit is None:
+                return f"{path}: {x!r} is not an instance of a variant"
+            tg, leaf = hit
+            if layout == 'internal':
+                body = d
+            elif layout == 'external':
+                if type(d) is not dict or list(d) != [tg]:
+                    return f"{path}: expected the external layout {{{tg!r}: ...}}, got {d!r}"
+                body = d[tg]
+            else:
+                if type(d) is not dict or set(d) != {'t', 'c'} or not values.typed_eq(d['t'], tg):
+                    return f"{path}: expected the adjacent layout {{'t': {tg!r}, 'c': ...}}, got {d!r}"
+                body = d['c']
+            return _check_serial_dc(grammar.DC_SPECS[leaf], x, body, path)
+        if ast in ('int', 'float', 'complex', 'str', 'bytes', 'bool', 'none', 'lit_str', 'lit_mixed', 'lit_v1', 'lit_v2', 'lit_1', 'lit_2'):
             want = x
         elif ast == 'bytearray':
             return None if type(d) in (bytes, bytearray) and bytes(d) == bytes(x) else f"{path}: expected the bytes {bytes(x)!r}, got {d!r}"
